@@ -6,6 +6,9 @@ type PropRunner func(r *Run)
 
 func e0Profile(prop string, checks ...string) *Profile {
 	p := &Profile{Prop: prop, Weights: baseWeights(), Check: map[string]bool{}, MinSteps: 10, MaxSteps: 40}
+	if Tier == "thorough" {
+		p.MaxSteps = 70
+	}
 	for _, c := range checks {
 		p.Check[c] = true
 	}
